@@ -7,6 +7,7 @@ import (
 	"go.flow.arcalot.io/pluginsdk/schema"
 	"os"
 	"path/filepath"
+	"regexp"
 	"strings"
 
 	"github.com/fxamacker/cbor/v2"
@@ -172,7 +173,39 @@ func groupValid(s *sink, g *hx.Gen) {
 	chain(s, t, r, "valid")
 }
 
+// patternResultsAreIndependent: what a pattern schema returns is the caller's own compiled expression for the raw
+// text: a caller who configures his result (Longest) does not change what the next caller gets for that text.
+func patternResultsAreIndependent(s *sink) {
+	if s.stats["pattern:independent"] > 0 {
+		return
+	}
+	s.stats["pattern:independent"]++
+	for _, c := range [][2]string{{"a|ab", "ab"}, {"foo|foobar", "foobar"}, {"a+?", "aaa"}, {"(a|ab)(c|bcd)", "abcd"}} {
+		text, probe := c[0], c[1]
+		want := regexp.MustCompile(text).FindString(probe)
+		for round := 0; round < 3; round++ {
+			var got any
+			var err error
+			r := hx.Guard(func() hx.Result { got, err = schema.NewPatternSchema().Unserialize(text); return hx.Result{R: "ok"} })
+			re, ok := got.(*regexp.Regexp)
+			if r.R != "ok" || err != nil || !ok || re == nil {
+				s.finding(Finding{Prop: "C02", What: "a pattern schema does not accept the expression " + text, Detail: []string{fmt.Sprint(err), r.Msg}})
+				break
+			}
+			if f := re.FindString(probe); f != want {
+				for _, prop := range []string{"C02", "C12"} {
+					s.finding(Finding{Prop: prop, What: "the expression a pattern schema returns is not the one its raw text denotes: an earlier caller's configuration of HIS result shows",
+						Detail: []string{fmt.Sprintf("text %q on %q: FindString %q, the denoted expression gives %q (call %d for this text)", text, probe, f, want, round+1)}})
+				}
+				break
+			}
+			re.Longest() // this caller wants leftmost-longest matches from his own copy
+		}
+	}
+}
+
 func groupScalar(s *sink, g *hx.Gen) {
+	patternResultsAreIndependent(s)
 	t := g.Scalar()
 	r := g.Value(t, hx.Env{}, 0)
 	chain(s, t, r, "scalar")
